@@ -181,7 +181,21 @@ func TestVF_Verify(t *testing.T) {
 			if counted != nil {
 				res["counted"] = counted
 			}
-			res["logged"] = strings.Count(logbuf.String(), "inconsistency ")
+			// "logged": lines that name one of the reported fields (whatever else the wording is)
+			fields := map[string]bool{}
+			for _, c := range counted {
+				fields[c.([]any)[0].(string)] = true
+			}
+			logged := 0
+			for _, ln := range strings.Split(logbuf.String(), "\n") {
+				for f := range fields {
+					if strings.Contains(ln, f) {
+						logged++
+						break
+					}
+				}
+			}
+			res["logged"] = logged
 			res["hook"] = hooks
 		}()
 		rec.raw(map[string]any{"kind": "c12", "id": vfStr(v, "id", ""), "in": inp, "out": res})
